@@ -182,6 +182,14 @@ func evalDkls(idx int, k kase, o *outcome) {
 	if mult == "softspoken" {
 		tag = "r3"
 	}
+	if cfg.API == "runner" {
+		// the runner executes all rounds under one tape mark; for bbot Round1 is the first to read
+		// (r, witness, phi), for softspoken the position of r and phi is not fixed: no tape tie
+		if mult != "bbot" {
+			return
+		}
+		tag = "run"
+	}
 	n := len(res.Quorum)
 	var rt, pt_ [][]byte
 	for _, id := range res.Quorum {
